@@ -430,7 +430,11 @@ func c19BuildOne(r *rand.Rand, kp *keys.Pair, observe bool) (*c19Shared, error) 
 		// every shared pipeline also has a step whose plugins carry explicitly empty configs (mapping, list) next
 		// to an absent one: marshalling writes them all as null, the objects keep what they hold
 		p.Steps = append(p.Steps, &pipeline.CommandStep{Command: "with empty plugin configs", Plugins: pipeline.Plugins{
-			{Source: "ecr#v2.7.0", Config: map[string]any{}}, {Source: "cache#v1.0.0", Config: []any{}}, {Source: "docker#v5.0.0"}}})
+			{Source: "ecr#v2.7.0", Config: map[string]any{}}, {Source: "cache#v1.0.0", Config: []any{}}, {Source: "docker#v5.0.0"}}},
+			// ... and a step whose cache paths, plugin source and command are spelled redundantly (a leading "./", a
+			// trailing slash, doubled separators, padding): observers write them out as they are and leave them alone
+			&pipeline.CommandStep{Command: "  make all \r\n", Label: " padded ", Cache: &pipeline.Cache{Paths: []string{"./vendor/", "node_modules//.cache", "a/./b", "x/../y", " spaced "}, Name: " n "},
+				Plugins: pipeline.Plugins{{Source: "./local//plugin/", Config: map[string]any{"path": "./a//b/"}}}})
 		s.pipe = p
 		break
 	}
